@@ -90,6 +90,26 @@ uint32_t vm_link_module(VmState *vm, const NvmModule *mod) {
 }
 
 /* ========================================================================
+ * 64-bit wrapping integer arithmetic (the language's int is a wrapping int64).
+ * Computed in uint64_t so that overflow is defined; INT64_MIN / -1 wraps to
+ * INT64_MIN instead of raising SIGFPE; division/modulo by zero yield 0.
+ * ======================================================================== */
+
+static inline int64_t i64_add(int64_t a, int64_t b) { return (int64_t)((uint64_t)a + (uint64_t)b); }
+static inline int64_t i64_sub(int64_t a, int64_t b) { return (int64_t)((uint64_t)a - (uint64_t)b); }
+static inline int64_t i64_mul(int64_t a, int64_t b) { return (int64_t)((uint64_t)a * (uint64_t)b); }
+static inline int64_t i64_neg(int64_t a) { return (int64_t)(0 - (uint64_t)a); }
+static inline int64_t i64_div(int64_t a, int64_t b) {
+    if (b == 0) return 0;
+    if (b == -1) return i64_neg(a);
+    return a / b;
+}
+static inline int64_t i64_mod(int64_t a, int64_t b) {
+    if (b == 0 || b == -1) return 0;
+    return a % b;
+}
+
+/* ========================================================================
  * Stack Operations
  * ======================================================================== */
 
@@ -359,7 +379,7 @@ VmTrap vm_core_execute(VmState *vm) {
             if (a.tag == TAG_ENUM) { a = val_int((int64_t)a.as.enum_val); }
             if (b.tag == TAG_ENUM) { b = val_int((int64_t)b.as.enum_val); }
             if (a.tag == TAG_INT && b.tag == TAG_INT) {
-                stack_push(vm, val_int(a.as.i64 + b.as.i64));
+                stack_push(vm, val_int(i64_add(a.as.i64, b.as.i64)));
             } else if (a.tag == TAG_FLOAT && b.tag == TAG_FLOAT) {
                 stack_push(vm, val_float(a.as.f64 + b.as.f64));
             } else if (a.tag == TAG_FLOAT && b.tag == TAG_INT) {
@@ -386,7 +406,7 @@ VmTrap vm_core_execute(VmState *vm) {
                         VmString *s = vm_string_concat(&vm->heap, ea.as.string, eb.as.string);
                         ev = val_string(s);
                     } else if (ea.tag == TAG_INT && eb.tag == TAG_INT)
-                        ev = val_int(ea.as.i64 + eb.as.i64);
+                        ev = val_int(i64_add(ea.as.i64, eb.as.i64));
                     else if (ea.tag == TAG_FLOAT && eb.tag == TAG_FLOAT)
                         ev = val_float(ea.as.f64 + eb.as.f64);
                     else if (ea.tag == TAG_FLOAT && eb.tag == TAG_INT)
@@ -394,7 +414,7 @@ VmTrap vm_core_execute(VmState *vm) {
                     else if (ea.tag == TAG_INT && eb.tag == TAG_FLOAT)
                         ev = val_float((double)ea.as.i64 + eb.as.f64);
                     else
-                        ev = val_int(ea.as.i64 + eb.as.i64);
+                        ev = val_int(i64_add(ea.as.i64, eb.as.i64));
                     vm_array_push(result, ev);
                 }
                 vm_release(&vm->heap, a);
@@ -425,13 +445,13 @@ VmTrap vm_core_execute(VmState *vm) {
                             ev = val_string(s);
                         }
                     } else if (ea.tag == TAG_INT && scalar.tag == TAG_INT)
-                        ev = val_int(ea.as.i64 + scalar.as.i64);
+                        ev = val_int(i64_add(ea.as.i64, scalar.as.i64));
                     else if (ea.tag == TAG_FLOAT || scalar.tag == TAG_FLOAT) {
                         double da = ea.tag == TAG_FLOAT ? ea.as.f64 : (double)ea.as.i64;
                         double ds = scalar.tag == TAG_FLOAT ? scalar.as.f64 : (double)scalar.as.i64;
                         ev = val_float(da + ds);
                     } else
-                        ev = val_int(ea.as.i64 + scalar.as.i64);
+                        ev = val_int(i64_add(ea.as.i64, scalar.as.i64));
                     vm_array_push(result, ev);
                 }
                 vm_release(&vm->heap, a);
@@ -455,7 +475,7 @@ VmTrap vm_core_execute(VmState *vm) {
             if (a.tag == TAG_ENUM) { a = val_int((int64_t)a.as.enum_val); }
             if (b.tag == TAG_ENUM) { b = val_int((int64_t)b.as.enum_val); }
             if (a.tag == TAG_INT && b.tag == TAG_INT) {
-                stack_push(vm, val_int(a.as.i64 - b.as.i64));
+                stack_push(vm, val_int(i64_sub(a.as.i64, b.as.i64)));
             } else if (a.tag == TAG_FLOAT && b.tag == TAG_FLOAT) {
                 stack_push(vm, val_float(a.as.f64 - b.as.f64));
             } else if (a.tag == TAG_FLOAT && b.tag == TAG_INT) {
@@ -473,13 +493,13 @@ VmTrap vm_core_execute(VmState *vm) {
                     NanoValue eb = arr_b->elements[ai];
                     NanoValue ev;
                     if (ea.tag == TAG_INT && eb.tag == TAG_INT)
-                        ev = val_int(ea.as.i64 - eb.as.i64);
+                        ev = val_int(i64_sub(ea.as.i64, eb.as.i64));
                     else if (ea.tag == TAG_FLOAT || eb.tag == TAG_FLOAT) {
                         double da = ea.tag == TAG_FLOAT ? ea.as.f64 : (double)ea.as.i64;
                         double db = eb.tag == TAG_FLOAT ? eb.as.f64 : (double)eb.as.i64;
                         ev = val_float(da - db);
                     } else
-                        ev = val_int(ea.as.i64 - eb.as.i64);
+                        ev = val_int(i64_sub(ea.as.i64, eb.as.i64));
                     vm_array_push(result, ev);
                 }
                 vm_release(&vm->heap, a);
@@ -502,7 +522,7 @@ VmTrap vm_core_execute(VmState *vm) {
                     double ds = scalar.tag == TAG_FLOAT ? scalar.as.f64 : (double)scalar.as.i64;
                     double dr = arr_is_left ? da - ds : ds - da;
                     if (ea.tag == TAG_INT && scalar.tag == TAG_INT)
-                        ev = val_int(arr_is_left ? ea.as.i64 - scalar.as.i64 : scalar.as.i64 - ea.as.i64);
+                        ev = val_int(arr_is_left ? i64_sub(ea.as.i64, scalar.as.i64) : i64_sub(scalar.as.i64, ea.as.i64));
                     else
                         ev = val_float(dr);
                     vm_array_push(result, ev);
@@ -525,7 +545,7 @@ VmTrap vm_core_execute(VmState *vm) {
             if (a.tag == TAG_ENUM) { a = val_int((int64_t)a.as.enum_val); }
             if (b.tag == TAG_ENUM) { b = val_int((int64_t)b.as.enum_val); }
             if (a.tag == TAG_INT && b.tag == TAG_INT) {
-                stack_push(vm, val_int(a.as.i64 * b.as.i64));
+                stack_push(vm, val_int(i64_mul(a.as.i64, b.as.i64)));
             } else if (a.tag == TAG_FLOAT && b.tag == TAG_FLOAT) {
                 stack_push(vm, val_float(a.as.f64 * b.as.f64));
             } else if (a.tag == TAG_FLOAT && b.tag == TAG_INT) {
@@ -543,13 +563,13 @@ VmTrap vm_core_execute(VmState *vm) {
                     NanoValue eb = arr_b->elements[ai];
                     NanoValue ev;
                     if (ea.tag == TAG_INT && eb.tag == TAG_INT)
-                        ev = val_int(ea.as.i64 * eb.as.i64);
+                        ev = val_int(i64_mul(ea.as.i64, eb.as.i64));
                     else if (ea.tag == TAG_FLOAT || eb.tag == TAG_FLOAT) {
                         double da = ea.tag == TAG_FLOAT ? ea.as.f64 : (double)ea.as.i64;
                         double db = eb.tag == TAG_FLOAT ? eb.as.f64 : (double)eb.as.i64;
                         ev = val_float(da * db);
                     } else
-                        ev = val_int(ea.as.i64 * eb.as.i64);
+                        ev = val_int(i64_mul(ea.as.i64, eb.as.i64));
                     vm_array_push(result, ev);
                 }
                 vm_release(&vm->heap, a);
@@ -568,7 +588,7 @@ VmTrap vm_core_execute(VmState *vm) {
                     NanoValue ea = arr->elements[ai];
                     NanoValue ev;
                     if (ea.tag == TAG_INT && scalar.tag == TAG_INT)
-                        ev = val_int(ea.as.i64 * scalar.as.i64);
+                        ev = val_int(i64_mul(ea.as.i64, scalar.as.i64));
                     else {
                         double da = ea.tag == TAG_FLOAT ? ea.as.f64 : (double)ea.as.i64;
                         double ds = scalar.tag == TAG_FLOAT ? scalar.as.f64 : (double)scalar.as.i64;
@@ -595,7 +615,7 @@ VmTrap vm_core_execute(VmState *vm) {
             if (b.tag == TAG_ENUM) { b = val_int((int64_t)b.as.enum_val); }
             if (a.tag == TAG_INT && b.tag == TAG_INT) {
                 /* Division by zero = 0 (matches Coq semantics) */
-                stack_push(vm, val_int(b.as.i64 == 0 ? 0 : a.as.i64 / b.as.i64));
+                stack_push(vm, val_int(i64_div(a.as.i64, b.as.i64)));
             } else if (a.tag == TAG_FLOAT && b.tag == TAG_FLOAT) {
                 stack_push(vm, val_float(b.as.f64 == 0.0 ? 0.0 : a.as.f64 / b.as.f64));
             } else if (a.tag == TAG_FLOAT && b.tag == TAG_INT) {
@@ -613,7 +633,7 @@ VmTrap vm_core_execute(VmState *vm) {
                     NanoValue eb = arr_b->elements[ai];
                     NanoValue ev;
                     if (ea.tag == TAG_INT && eb.tag == TAG_INT)
-                        ev = val_int(eb.as.i64 == 0 ? 0 : ea.as.i64 / eb.as.i64);
+                        ev = val_int(i64_div(ea.as.i64, eb.as.i64));
                     else {
                         double da = ea.tag == TAG_FLOAT ? ea.as.f64 : (double)ea.as.i64;
                         double db = eb.tag == TAG_FLOAT ? eb.as.f64 : (double)eb.as.i64;
@@ -641,9 +661,9 @@ VmTrap vm_core_execute(VmState *vm) {
                     double ds = scalar.tag == TAG_FLOAT ? scalar.as.f64 : (double)scalar.as.i64;
                     if (ea.tag == TAG_INT && scalar.tag == TAG_INT) {
                         if (arr_is_left)
-                            ev = val_int(scalar.as.i64 == 0 ? 0 : ea.as.i64 / scalar.as.i64);
+                            ev = val_int(i64_div(ea.as.i64, scalar.as.i64));
                         else
-                            ev = val_int(ea.as.i64 == 0 ? 0 : scalar.as.i64 / ea.as.i64);
+                            ev = val_int(i64_div(scalar.as.i64, ea.as.i64));
                     } else {
                         double dr = arr_is_left ? (ds == 0.0 ? 0.0 : da / ds)
                                                 : (da == 0.0 ? 0.0 : ds / da);
@@ -667,7 +687,7 @@ VmTrap vm_core_execute(VmState *vm) {
             NanoValue b = stack_pop(vm);
             NanoValue a = stack_pop(vm);
             if (a.tag == TAG_INT && b.tag == TAG_INT) {
-                stack_push(vm, val_int(b.as.i64 == 0 ? 0 : a.as.i64 % b.as.i64));
+                stack_push(vm, val_int(i64_mod(a.as.i64, b.as.i64)));
             } else {
                 return trap_error(vm, VM_ERR_TYPE_ERROR, "MOD: type error");
             }
@@ -677,7 +697,7 @@ VmTrap vm_core_execute(VmState *vm) {
         case OP_NEG: {
             NanoValue a = stack_pop(vm);
             if (a.tag == TAG_INT) {
-                stack_push(vm, val_int(-a.as.i64));
+                stack_push(vm, val_int(i64_neg(a.as.i64)));
             } else if (a.tag == TAG_FLOAT) {
                 stack_push(vm, val_float(-a.as.f64));
             } else {
